@@ -1,0 +1,23 @@
+//go:build verif
+
+// Contracts for the tvc verifier (/verif). Comment-only: with the `verif` tag off this file does not exist,
+// with it on it adds no code. Syntax: /verif/DESIGN.md appendix A.
+
+package storage
+
+//@ for C05
+
+//@ # ---- disk first, memory second: what the store acknowledges is on disk, what it holds in memory is on disk ----
+//@ ghost c05disk bool = false
+
+//@ func DiskStorage.Put
+//@   requires d != nil && d.db != nil && d.memory != nil
+//@   at call DB.Update: ghost c05disk = (result == nil)
+//@   ensures result == nil ==> c05disk
+//@ guard call MemoryStorage.Put in DiskStorage.Put: c05disk
+
+//@ func DiskStorage.Delete
+//@   requires d != nil && d.db != nil && d.memory != nil
+//@   at call DB.Update: ghost c05disk = (result == nil)
+//@   ensures result == nil ==> c05disk
+//@ guard call MemoryStorage.Delete in DiskStorage.Delete: c05disk
